@@ -11,6 +11,7 @@ import (
 	"reflect"
 	"sort"
 	"sync"
+	"sync/atomic"
 )
 
 // ---------------------------------------------------------------------------------------------
@@ -88,14 +89,14 @@ type Run struct {
 
 var (
 	mu  sync.Mutex
-	run *Run // active exploration, nil when inactive
+	run atomic.Pointer[Run] // active exploration, nil when inactive
 )
 
+// active is lock-free on purpose: the free-running -race pass calls the hooks from many goroutines, and a mutex
+// here would order all their accesses (a happens-before edge per hook) and blind the race detector to races between
+// two hooked operations. An atomic load of a pointer nobody stores creates no such edge.
 func active() *Run {
-	mu.Lock()
-	r := run
-	mu.Unlock()
-	return r
+	return run.Load()
 }
 
 // Go runs the bodies as controlled threads under the chooser and returns the finished Run.
@@ -107,13 +108,9 @@ func Go(choose Chooser, bodies ...func()) *Run {
 		t.vc[i] = 1
 		r.threads = append(r.threads, t)
 	}
-	mu.Lock()
-	run = r
-	mu.Unlock()
+	run.Store(r)
 	defer func() {
-		mu.Lock()
-		run = nil
-		mu.Unlock()
+		run.Store(nil)
 	}()
 	for i, b := range bodies {
 		r.start(r.threads[i], b)
@@ -226,13 +223,9 @@ func (r *Run) point() {
 // WithMapOrders runs f on the calling goroutine with map iteration orders decided by choose.
 func WithMapOrders(choose Chooser, f func()) {
 	r := &Run{choose: choose, mapOnly: true}
-	mu.Lock()
-	run = r
-	mu.Unlock()
+	run.Store(r)
 	defer func() {
-		mu.Lock()
-		run = nil
-		mu.Unlock()
+		run.Store(nil)
 	}()
 	f()
 }
@@ -585,11 +578,14 @@ func copyValue(v reflect.Value) reflect.Value {
 		if v.IsNil() {
 			return v
 		}
-		s := reflect.MakeSlice(v.Type(), v.Len(), v.Len())
-		for i := 0; i < v.Len(); i++ {
-			s.Index(i).Set(copyValue(v.Index(i)))
+		// the copy keeps the capacity (and what lies beyond the length): a scratch buffer made with spare capacity
+		// must be one after the reset as well, or code that shares its backing array would stop doing so
+		full := v.Slice3(0, v.Cap(), v.Cap())
+		s := reflect.MakeSlice(v.Type(), v.Cap(), v.Cap())
+		for i := 0; i < full.Len(); i++ {
+			s.Index(i).Set(copyValue(full.Index(i)))
 		}
-		return s
+		return s.Slice3(0, v.Len(), v.Cap())
 	case reflect.Array:
 		a := reflect.New(v.Type()).Elem()
 		for i := 0; i < v.Len(); i++ {
